@@ -2,7 +2,7 @@
    deliver, and the loops built on them. *)
 From Coq Require Import ZArith List Bool Lia Sorted.
 From ADV Require Import C11.Model C11.Spec C11.ProofsMap C11.ProofsIter C11.ProofsInv C11.ProofsRef
-                        C03.Model C03.Spec C03.ProofsSem.
+                        C03.Model C03.Spec C03.ProofsDense C03.ProofsSem.
 Import ListNotations.
 Open Scope Z_scope.
 
@@ -283,6 +283,7 @@ Lemma joint3_next_spec w j p :
       (forall i, p <= i < kidx j' -> peek (hp w) (getv w t) i = 0 /\ A i = 0 /\ B i = 0) /\
       jval (ks2 j') = A (kidx j') /\ jval (ks3 j') = B (kidx j') /\
       (forall l, ks1 j' = Some l -> lookup (kidx j') (vals (getv w' t)) = Some l) /\
+      (ks1 j' = None -> peek (hp w) (getv w t) (kidx j') = 0) /\
       J3 w' j' (kidx j' + 1))).
 Proof.
   intros (HG & Hn & Hp & P1 & C2 & C3).
@@ -334,6 +335,8 @@ Proof.
     { intros l El. destruct d1.
       - destruct (R2 eq_refl) as (l' & X & L & N). rewrite (Qw_lookup w w3 t i Q03 N). congruence.
       - destruct (R3 eq_refl) as (X & _). congruence. }
+    split.
+    { intro El. destruct d1; [destruct (R2 eq_refl) as (l' & X & _); congruence|apply R3; auto]. }
     unfold J3. cbn [k1 k2 k3]. split; [exact G3|]. split; [rewrite (Qw_dim w w3 t Q03); auto|].
     split; [lia|]. split; [eapply Pos_Qw; eauto|]. split; [eapply CPos_Qw; eauto|exact C3'].
   - (* nothing left *)
@@ -396,6 +399,7 @@ Definition Head (w : world) (j : joint3) (p : Z) : Prop :=
    (forall i, p <= i < kidx j -> peek (hp w) (getv w t) i = 0 /\ A i = 0 /\ B i = 0) /\
    jval (ks2 j) = A (kidx j) /\ jval (ks3 j) = B (kidx j) /\
    (forall l, ks1 j = Some l -> lookup (kidx j) (vals (getv w t)) = Some l) /\
+   (ks1 j = None -> peek (hp w) (getv w t) (kidx j) = 0) /\
    J3 t n A B w j (kidx j + 1)).
 
 Lemma next_Head w j p :
@@ -406,9 +410,10 @@ Proof.
   - exists w', j'. split; [auto|]. split; [auto|]. split; [auto|]. left.
     destruct X as (X1 & X2). split; auto. intros i Hi. rewrite (Qw_peek w w' t i HQ). auto.
   - exists w', j'. split; [auto|]. split; [auto|]. split; [auto|]. right.
-    destruct X as (X1 & X2 & X3 & X4 & X5 & X6 & X7).
-    split; [auto|]. split; [auto|]. split; [|auto].
-    intros i Hi. rewrite (Qw_peek w w' t i HQ). auto.
+    destruct X as (X1 & X2 & X3 & X4 & X5 & X6 & X7 & X8).
+    split; [auto|]. split; [auto|]. split; [|split; [auto|split; [auto|split; [auto|split; [|auto]]]]].
+    + intros i Hi. rewrite (Qw_peek w w' t i HQ). auto.
+    + intro El. rewrite (Qw_peek w w' t _ HQ). auto.
 Qed.
 
 Lemma map3_loop_spec : forall fuel w j p,
@@ -422,7 +427,7 @@ Lemma map3_loop_spec : forall fuel w j p,
     (forall u, dim (getv w' u) = dim (getv w u)).
 Proof.
   induction fuel as [|fu IH]; intros w j p HG Hn Hp HH HD Hf; [lia|].
-  destruct HH as [(K & Z0)|(K & Hi & Zg & VA & VB & HS & HJ)].
+  destruct HH as [(K & Z0)|(K & Hi & Zg & VA & VB & HS & HS0 & HJ)].
   - exists w. cbn [map3_loop]. rewrite K. split; [auto|]. split; [auto|]. split; [auto|]. split; [auto|].
     split; [|auto]. intros i Hi. destruct (Z_lt_ge_dec i p) as [L|L]; [apply HD; lia|].
     destruct (Z0 i) as (X & Y & Z1); [lia|]. rewrite X, Y, Z1. auto.
@@ -447,7 +452,8 @@ Proof.
     + intros i Hi'. rewrite (Qw_peek w1 w2 t i Q2).
       destruct (Z.eq_dec i (kidx j)) as [->|N].
       * rewrite P1, VA, VB. auto.
-      * rewrite (proj1 (F1 i N)). apply HD. lia.
+      * rewrite (proj1 (F1 i N)). destruct (Z_lt_ge_dec i p) as [L|L]; [apply HD; lia|].
+        destruct (Zg i) as (X & Y & Z1); [lia|]. rewrite X, Y, Z1. auto.
     + lia.
     + exists w'. split; [auto|]. split; [auto|]. split; [auto|].
       split; [destruct Q2 as (_ & X & _); lia|]. split; [auto|]. split.
@@ -455,3 +461,499 @@ Proof.
       * intro u. rewrite DD3, (Qw_dim w1 w2 u Q2). auto.
 Qed.
 End Loop3.
+
+(* ---- the whole operation: r.Op(a, b) through the three-way joint iterator -------- *)
+Lemma zseq_In : forall n a i, In i (zseq a n) <-> a <= i < a + Z.of_nat n.
+Proof.
+  induction n as [|n IH]; intros a i; simpl; [lia|].
+  rewrite IH. lia.
+Qed.
+Lemma ord_Qw w w' o i : Qw w w' -> ord w' o i = ord w o i.
+Proof. intro HQ. destruct o as [u|d]; simpl; auto. apply Qw_peek. auto. Qed.
+Lemma operand_wk_Qw w w' t o : operand_wk w t o -> Qw w w' -> operand_wk w' t o.
+Proof.
+  intros H HQ. destruct o as [u|d]; simpl in *.
+  - destruct H as (N & Hu & Hd). split; [auto|]. split.
+    + destruct HQ as (_ & L & _). unfold has in *. lia.
+    + rewrite !(Qw_dim w w' _ HQ). auto.
+  - rewrite (Qw_dim w w' _ HQ). auto.
+Qed.
+Lemma operand_dim w t o : operand_ok3 w t o -> op_dim w o = dim (getv w t).
+Proof. destruct o as [u|d]; simpl; [tauto|auto]. Qed.
+Lemma oabs_ord w o n :
+  op_dim w o = n -> oabs w o = map (ord w o) (zseq 0 (Z.to_nat n)).
+Proof.
+  destruct o as [u|d]; simpl; intro H.
+  - unfold sabs, abs_vec. rewrite H. auto.
+  - subst n. unfold zlen. rewrite Nat2Z.id. change 0 with (Z.of_nat 0) at 1. rewrite zseq_seq, map_map.
+    rewrite <- (nth_seq_self d) at 1. apply map_ext. intro j. simpl. rewrite Nat2Z.id. auto.
+Qed.
+Lemma sabs_peek w u n :
+  dim (getv w u) = n -> sabs w u = map (peek (hp w) (getv w u)) (zseq 0 (Z.to_nat n)).
+Proof. intro H. unfold sabs, abs_vec. rewrite H. auto. Qed.
+
+Section Top3.
+Variable t : nat.
+Variable f : Z -> Z -> Z.
+Hypothesis f00 : f 0 0 = 0.
+
+Lemma joint3_begin_Head w o2 o3 :
+  G t w -> operand_wk w t o2 -> operand_wk w t o3 ->
+  exists w1 j, joint3_begin w t o2 o3 = Some (w1, j) /\ Qw w w1 /\ G t w1 /\
+    Head t (dim (getv w t)) (ord w o2) (ord w o3) w1 j 0.
+Proof.
+  intros HG H2 H3. set (n := dim (getv w t)). unfold joint3_begin.
+  pose proof HG as (GI & _ & _ & GH).
+  destruct (it_begin_pos (hp w) (getv w t) (GI t)) as (v' & c1 & E1 & Q1 & I1 & P1).
+  rewrite E1. set (wA := setv w t v').
+  assert (QA : Qw w wA) by (apply Qw_setv; auto).
+  assert (GA : G t wA) by (eapply G_Qw; eauto; apply AInv_setv; auto).
+  assert (DA : dim (getv wA t) = n) by (rewrite (Qw_dim w wA t QA); auto).
+  destruct (CPos_begin t n wA o2 GA (operand_wk_Qw w wA t o2 H2 QA) DA) as (wB & c2 & E2 & QB & IB & CB).
+  rewrite E2.
+  assert (GB : G t wB) by (eapply G_Qw; eauto).
+  assert (Q0B : Qw w wB) by (eapply Qw_trans; eauto).
+  assert (DB : dim (getv wB t) = n) by (rewrite (Qw_dim w wB t Q0B); auto).
+  destruct (CPos_begin t n wB o3 GB (operand_wk_Qw w wB t o3 H3 Q0B) DB) as (wC & c3 & E3 & QC & IC & CC).
+  rewrite E3.
+  assert (GC : G t wC) by (eapply G_Qw; eauto).
+  assert (Q0C : Qw w wC) by (eapply Qw_trans; eauto).
+  assert (QAC : Qw wA wC) by (eapply Qw_trans; eauto).
+  set (j0 := {| k1 := c1; k2 := c2; k3 := c3; kidx := -1; ks1 := None; ks2 := None; ks3 := None; kok := false |}).
+  assert (HJ : J3 t n (ord w o2) (ord w o3) wC j0 0).
+  { unfold J3, j0. cbn [k1 k2 k3]. split; [auto|]. split; [rewrite (Qw_dim w wC t Q0C); auto|].
+    split; [lia|]. split.
+    - apply (Pos_Qw t wA wC); auto. unfold wA. simpl. rewrite getv_setv_eq; auto.
+    - split.
+      + eapply CPos_ext; [|eapply CPos_Qw; [exact CB|exact QC]]. intro i. apply ord_Qw. auto.
+      + eapply CPos_ext; [|exact CC]. intro i. apply ord_Qw. auto. }
+  destruct (next_Head t n _ _ wC j0 0 HJ) as (w1 & j & E4 & Q4 & G4 & H4).
+  exists w1, j. split; [exact E4|]. split; [eapply Qw_trans; eauto|]. split; auto.
+Qed.
+
+Theorem vop3_correct w o2 o3 :
+  G t w -> operand_ok3 w t o2 -> operand_ok3 w t o3 ->
+  exists w', vop3 f w t o2 o3 = Some (w', true) /\ G t w' /\
+    length (vecs w') = length (vecs w) /\
+    sabs w' t = map2 f (oabs w o2) (oabs w o3) /\
+    (forall u, u <> t -> sabs w' u = sabs w u) /\
+    (forall u, dim (getv w' u) = dim (getv w u)).
+Proof.
+  intros HG H2 H3. unfold vop3.
+  rewrite (operand_dim w t o2 H2), (operand_dim w t o3 H3), Z.eqb_refl. cbn [negb orb].
+  destruct (joint3_begin_Head w o2 o3 HG (operand_ok3_wk _ _ _ H2) (operand_ok3_wk _ _ _ H3)) as (w1 & j & E1 & Q1 & G1 & H1).
+  rewrite E1. set (n := dim (getv w t)) in *.
+  assert (Hn0 : 0 <= n) by (destruct HG as (GI & _); destruct (GI t) as (_ & _ & _ & _ & X); auto).
+  destruct (map3_loop_spec t n (ord w o2) (ord w o3) f f00 (lfuel w t) w1 j 0) as
+    (w' & E2 & G2 & D2 & L2 & R2 & F2 & DD2); auto.
+  - rewrite (Qw_dim w w1 t Q1). auto.
+  - lia.
+  - intros i Hi. lia.
+  - unfold lfuel. fold n. lia.
+  - exists w'. split; [exact E2|]. split; [exact G2|].
+    split; [destruct Q1 as (_ & X & _); lia|]. split; [|split].
+    + rewrite (sabs_peek w' t n D2).
+      rewrite (oabs_ord w o2 n), (oabs_ord w o3 n) by (apply operand_dim; auto).
+      rewrite map2_map. apply map_ext_in. intros i Hi. apply zseq_In in Hi. apply R2. lia.
+    + intros u N. assert (DU : dim (getv w' u) = dim (getv w u)) by (rewrite DD2; apply (Qw_dim w w1 u Q1)).
+      rewrite (sabs_peek w' u _ DU), (sabs_peek w u _ eq_refl).
+      apply map_ext. intro i. rewrite F2 by auto. apply Qw_peek. auto.
+    + intro u. rewrite DD2. apply (Qw_dim w w1 u Q1).
+Qed.
+End Top3.
+
+(* ---- JOINT_ITERATOR is JOINT3_ITERATOR with an empty third operand ---------------- *)
+Definition embed (j : joint) : joint3 :=
+  {| k1 := j1 j; k2 := j2 j; k3 := CD [] 0; kidx := jidx j;
+     ks1 := js1 j; ks2 := js2 j; ks3 := None; kok := jok j |}.
+Definition lift_e (r : option (world * joint)) : option (world * joint3) :=
+  match r with Some (w, j) => Some (w, embed j) | None => None end.
+
+Lemma joint_next_embed w t j : joint3_next w t (embed j) = lift_e (joint_next w t j).
+Proof.
+  unfold joint3_next, joint_next, embed, lift_e. cbn [k1 k2 k3 kidx ci_ok length Z.of_nat Z.ltb Z.compare].
+  destruct (j1 j) as [a|]; destruct (ci_ok (j2 j));
+    cbn [negb andb orb]; rewrite ?orb_false_r, ?orb_true_r;
+    repeat match goal with
+           | |- context [if ?x then _ else _] => destruct x eqn:?
+           end;
+    repeat match goal with
+           | |- context [match ?x with Some _ => _ | None => _ end] => destruct x eqn:?
+           | |- context [let '(_, _) := ?x in _] => destruct x eqn:?
+           end;
+    repeat match goal with
+           | H : Some _ = Some _ |- _ => inversion H; subst; clear H
+           | H : (_, _) = (_, _) |- _ => inversion H; subst; clear H
+           | H : Some _ = None |- _ => discriminate H
+           | H : None = Some _ |- _ => discriminate H
+           end; try reflexivity.
+Qed.
+Lemma joint_begin_embed w t o : joint3_begin w t o (OD []) = lift_e (joint_begin w t o).
+Proof.
+  unfold joint3_begin, joint_begin.
+  destruct (it_begin (hp w) (getv w t)) as [[v' c1]|]; [|reflexivity].
+  destruct (ci_begin (setv w t v') o) as [[w1 c2]|]; [|reflexivity].
+  cbn [ci_begin]. apply (joint_next_embed w1 t {| j1 := c1; j2 := c2; jidx := -1; js1 := None; js2 := None; jok := false |}).
+Qed.
+Lemma map2_loop_embed (f : Z -> Z) : forall fuel w t j,
+  map2_loop f fuel w t j = map3_loop (fun a _ => f a) fuel w t (embed j).
+Proof.
+  induction fuel as [|fu IH]; intros w t [a b c d e g];
+    cbn [map2_loop map3_loop embed kok kidx ks1 ks2 ks3 jok jidx js1 js2 j1 j2]; destruct g; auto.
+  destruct (wr w t c d (f (jval e))) as [w1|]; auto.
+  change {| k1 := a; k2 := b; k3 := CD [] 0; kidx := c; ks1 := d; ks2 := e; ks3 := None; kok := true |}
+    with (embed {| j1 := a; j2 := b; jidx := c; js1 := d; js2 := e; jok := true |}).
+  rewrite joint_next_embed.
+  destruct (joint_next w1 t {| j1 := a; j2 := b; jidx := c; js1 := d; js2 := e; jok := true |}) as [[w2 j']|];
+    simpl; auto.
+Qed.
+
+Theorem vop2_correct t (f : Z -> Z) w o :
+  f 0 = 0 -> G t w -> operand_ok3 w t o ->
+  exists w', vop2 f w t o = Some (w', true) /\ G t w' /\
+    length (vecs w') = length (vecs w) /\
+    sabs w' t = map f (oabs w o) /\
+    (forall u, u <> t -> sabs w' u = sabs w u) /\
+    (forall u, dim (getv w' u) = dim (getv w u)).
+Proof.
+  intros f0 HG H2. unfold vop2.
+  rewrite (operand_dim w t o H2), Z.eqb_refl. cbn [negb].
+  assert (Hn0 : 0 <= dim (getv w t)) by (destruct HG as (GI & _); destruct (GI t) as (_ & _ & _ & _ & X); auto).
+  assert (H3 : operand_wk w t (OD [])) by (simpl; unfold zlen; simpl; lia).
+  destruct (joint3_begin_Head t w o (OD []) HG (operand_ok3_wk _ _ _ H2) H3) as (w1 & j3 & E1 & Q1 & G1 & H1).
+  rewrite joint_begin_embed in E1. destruct (joint_begin w t o) as [[w1' j]|]; [|discriminate].
+  simpl in E1. inversion E1. subst w1' j3. clear E1.
+  rewrite map2_loop_embed. set (n := dim (getv w t)) in *.
+  destruct (map3_loop_spec t n (ord w o) (ord w (OD [])) (fun a _ => f a) f0 (lfuel w t) w1 (embed j) 0) as
+    (w' & E2 & G2 & D2 & L2 & R2 & F2 & DD2); auto.
+  - rewrite (Qw_dim w w1 t Q1). auto.
+  - lia.
+  - intros i Hi. lia.
+  - unfold lfuel. fold n. lia.
+  - exists w'. split; [exact E2|]. split; [exact G2|].
+    split; [destruct Q1 as (_ & X & _); lia|]. split; [|split].
+    + rewrite (sabs_peek w' t n D2).
+      rewrite (oabs_ord w o n) by (apply operand_dim; auto).
+      rewrite map_map. apply map_ext_in. intros i Hi. apply zseq_In in Hi. apply R2. lia.
+    + intros u N. assert (DU : dim (getv w' u) = dim (getv w u)) by (rewrite DD2; apply (Qw_dim w w1 u Q1)).
+      rewrite (sabs_peek w' u _ DU), (sabs_peek w u _ eq_refl).
+      apply map_ext. intro i. rewrite F2 by auto. apply Qw_peek. auto.
+    + intro u. rewrite DD2. apply (Qw_dim w w1 u Q1).
+Qed.
+
+(* ---- Equals: the loop decides the point-wise predicate ---------------------------- *)
+Section Equals.
+Variable t : nat.
+Variable n : Z.
+Variable A : Z -> Z.
+Variable e2 : Z.
+Hypothesis He : 0 < e2.
+
+Lemma close00 : close e2 0 0 = true.
+Proof. unfold close. simpl. apply Z.ltb_lt. lia. Qed.
+
+Lemma eq_loop_spec : forall fuel w j p,
+  G t w -> dim (getv w t) = n -> 0 <= p -> Head t n A (fun _ => 0) w (embed j) p ->
+  (forall i, 0 <= i < p -> close e2 (peek (hp w) (getv w t) i) (A i) = true) ->
+  (Z.to_nat (n - p) < fuel)%nat ->
+  exists w' b, eq_loop e2 fuel w t j = Some (w', b) /\ Qw w w' /\ G t w' /\
+    (b = true <-> forall i, 0 <= i < n -> close e2 (peek (hp w) (getv w t) i) (A i) = true).
+Proof.
+  induction fuel as [|fu IH]; intros w j p HG Hn Hp HH HD Hf; [lia|].
+  destruct HH as [(K & Z0)|(K & Hi & Zg & VA & VB & HS & HS0 & HJ)]; cbn [embed kok kidx ks1 ks2] in *.
+  - exists w, true. cbn [eq_loop]. rewrite K. split; [auto|]. split; [apply Qw_refl|]. split; [auto|].
+    split; auto. intros _ i Hi. destruct (Z_lt_ge_dec i p) as [L|L]; [apply HD; lia|].
+    destruct (Z0 i) as (X & Y & _); [lia|]. rewrite X, Y. apply close00.
+  - cbn [eq_loop]. rewrite K.
+    assert (EX : (match js1 j with Some l => hget (hp w) l | None => 0 end) = peek (hp w) (getv w t) (jidx j)).
+    { destruct (js1 j) as [l|] eqn:E.
+      - unfold peek. rewrite (HS l eq_refl). auto.
+      - symmetry. apply HS0. auto. }
+    rewrite EX, VA.
+    destruct (close e2 (peek (hp w) (getv w t) (jidx j)) (A (jidx j))) eqn:C.
+    + destruct (next_Head t n A (fun _ => 0) w (embed j) (jidx j + 1) HJ) as (w2 & j3 & E2 & Q2 & G2 & H2).
+      rewrite joint_next_embed in E2. destruct (joint_next w t j) as [[w2' j']|]; [|discriminate].
+      simpl in E2. inversion E2. subst w2' j3. clear E2.
+      destruct (IH w2 j' (jidx j + 1)) as (w' & b & E3 & Q3 & G3 & R3); auto.
+      * rewrite (Qw_dim w w2 t Q2). auto.
+      * lia.
+      * intros i Hi'. rewrite (Qw_peek w w2 t i Q2).
+        destruct (Z.eq_dec i (jidx j)) as [->|N]; [auto|].
+        destruct (Z_lt_ge_dec i p) as [L|L]; [apply HD; lia|].
+        destruct (Zg i) as (X & Y & _); [lia|]. rewrite X, Y. apply close00.
+      * lia.
+      * exists w', b. split; [auto|]. split; [eapply Qw_trans; eauto|]. split; [auto|].
+        rewrite R3. split; intros HA i Hi'.
+        { rewrite <- (Qw_peek w w2 t i Q2). auto. }
+        { rewrite (Qw_peek w w2 t i Q2). auto. }
+    + exists w, false. split; [auto|]. split; [apply Qw_refl|]. split; [auto|].
+      split; [discriminate|]. intro HA. rewrite HA in C by lia. discriminate.
+Qed.
+End Equals.
+
+Theorem vequals_correct t e2 w o :
+  0 < e2 -> G t w -> operand_ok3 w t o ->
+  exists w', vequals e2 w t o = Some (w', Some (all_close e2 (sabs w t) (oabs w o))) /\
+             Qw w w' /\ G t w'.
+Proof.
+  intros He HG H2. unfold vequals.
+  rewrite (operand_dim w t o H2), Z.eqb_refl. cbn [negb].
+  assert (Hn0 : 0 <= dim (getv w t)) by (destruct HG as (GI & _); destruct (GI t) as (_ & _ & _ & _ & X); auto).
+  assert (H3 : operand_wk w t (OD [])) by (simpl; unfold zlen; simpl; lia).
+  destruct (joint3_begin_Head t w o (OD []) HG (operand_ok3_wk _ _ _ H2) H3) as (w1 & j3 & E1 & Q1 & G1 & H1).
+  rewrite joint_begin_embed in E1. destruct (joint_begin w t o) as [[w1' j]|]; [|discriminate].
+  simpl in E1. inversion E1. subst w1' j3. clear E1.
+  set (n := dim (getv w t)) in *.
+  assert (HH : Head t n (ord w o) (fun _ => 0) w1 (embed j) 0).
+  { destruct H1 as [(K & Z0)|(K & Hi & Zg & VA & VB & HS & HS0 & HJ)]; [left|right].
+    - split; auto. intros i Hi. destruct (Z0 i Hi) as (X & Y & _). auto.
+    - split; [auto|]. split; [auto|]. split.
+      + intros i Hi'. destruct (Zg i Hi') as (X & Y & _). auto.
+      + split; [auto|]. split; [auto|]. split; [auto|]. split; [auto|].
+        destruct HJ as (J1 & J2 & J3' & J4 & J5 & J6). unfold J3. split; [auto|]. split; [auto|].
+        split; [auto|]. split; [auto|]. split; [auto|].
+        eapply CPos_ext; [|exact J6]. intro i. simpl. destruct (Z.to_nat i); auto. }
+  destruct (eq_loop_spec t n (ord w o) e2 He (lfuel w t) w1 j 0) as (w' & b & E2 & Q2 & G2 & R2); auto.
+  - rewrite (Qw_dim w w1 t Q1). auto.
+  - lia.
+  - intros i Hi. lia.
+  - unfold lfuel. fold n. lia.
+  - rewrite E2. exists w'. split; [|split; [eapply Qw_trans; eauto|auto]].
+    f_equal. f_equal. f_equal.
+    rewrite (sabs_peek w t n eq_refl), (oabs_ord w o n) by (apply operand_dim; auto).
+    unfold all_close.
+    assert (RB : b = true <-> forall i, In i (zseq 0 (Z.to_nat n)) ->
+                   close e2 (peek (hp w) (getv w t) i) (ord w o i) = true).
+    { rewrite R2. split; intros HA i Hi.
+      - apply zseq_In in Hi. rewrite <- (Qw_peek w w1 t i Q1). apply HA. lia.
+      - rewrite (Qw_peek w w1 t i Q1). apply HA. apply zseq_In. lia. }
+    clear - RB. revert RB. generalize (zseq 0 (Z.to_nat n)). intros s RB.
+    assert (E : forallb (fun p => close e2 (fst p) (snd p))
+                  (combine (map (peek (hp w) (getv w t)) s) (map (ord w o) s)) =
+                forallb (fun i => close e2 (peek (hp w) (getv w t) i) (ord w o i)) s).
+    { clear RB. induction s as [|x s IH]; simpl; auto. rewrite IH. auto. }
+    rewrite E. destruct b.
+    + symmetry. apply forallb_forall. apply RB. auto.
+    + destruct (forallb (fun i => close e2 (peek (hp w) (getv w t) i) (ord w o i)) s) eqn:F; auto.
+      rewrite forallb_forall in F. apply RB in F. discriminate.
+Qed.
+
+(* ---- index loops on a sparse receiver: r.AT(i).<op>(...) for i = 0 .. n-1 ---------- *)
+Lemma upd_same : forall (h : heap) l, upd l (nth l h 0) h = h.
+Proof.
+  induction h as [|y h IH]; intro l; [destruct l; auto|].
+  destruct l; simpl; auto. f_equal. apply IH.
+Qed.
+Lemma hset_same h l : hset h l (hget h l) = h.
+Proof. apply upd_same. Qed.
+
+Section IndexLoops.
+Variable t : nat.
+Variable n : Z.
+
+(* r.AT(i): the entry exists afterwards, no value changes *)
+Lemma at_step w i :
+  G t w -> 0 <= i < dim (getv w t) ->
+  exists h' v' l, at_ (hp w) (getv w t) i = Some (h', v', l) /\
+    G t (seth (setv w t v') h') /\
+    lookup i (vals v') = Some l /\ getv (seth (setv w t v') h') t = v' /\
+    length (vecs (setv w t v')) = length (vecs w) /\
+    (forall u, dim (getv (seth (setv w t v') h') u) = dim (getv w u)) /\
+    (forall u k, peek h' (getv (seth (setv w t v') h') u) k = peek (hp w) (getv w u) k).
+Proof.
+  intros HG Hi. pose proof HG as (GI & GW & GS & GH).
+  destruct (wr_spec t w i None (peek (hp w) (getv w t) i) HG Hi) as (w1 & E & G1 & L1 & D1 & P1 & F1 & F2);
+    [intros l X; discriminate|].
+  unfold wr in E. destruct (at_ (hp w) (getv w t) i) as [[[h' v'] l]|] eqn:A; [|discriminate].
+  inversion E. clear E.
+  assert (X : hget h' l = peek (hp w) (getv w t) i /\ lookup i (vals v') = Some l).
+  { revert A. unfold at_. destruct (in_bounds (getv w t) i); [|discriminate]. unfold peek.
+    destruct (lookup i (vals (getv w t))) as [l0|] eqn:L.
+    - intro X. inversion X. subst. auto.
+    - cbn [halloc]. intro X. inversion X. subst. cbn [vals]. split; [|apply lookup_insert_eq].
+      unfold hget. rewrite app_nth2 by lia. rewrite Nat.sub_diag. auto. }
+  destruct X as (X1 & X2). rewrite <- X1, hset_same in H0. subst w1.
+  exists h', v', l. split; [auto|]. split; [auto|]. split; [auto|].
+  split; [change (getv (setv w t v') t = v'); apply getv_setv_eq; auto|]. split; [simpl; apply upd_length|].
+  split; [auto|]. intros u k.
+  change h' with (hp (seth (setv w t v') h')) at 1.
+  destruct (Nat.eq_dec u t) as [->|N].
+  - destruct (Z.eq_dec k i) as [->|NK]; [auto|apply F1; auto].
+  - apply F2. auto.
+Qed.
+
+Variable o : operand.
+Variable A : Z -> Z.
+Hypothesis Ho : match o with OS u => u <> t | OD _ => True end.
+
+Lemma ord_frame w w1 :
+  (forall u k, u <> t -> peek (hp w1) (getv w1 u) k = peek (hp w) (getv w u) k) ->
+  (forall k, ord w o k = A k) -> forall k, ord w1 o k = A k.
+Proof. intros F H k. rewrite <- H. destruct o as [u|d]; simpl; auto. Qed.
+
+Variable g : world -> Z -> option Z.
+Variable F : Z -> Z.
+Hypothesis Hg : forall w1 k, (forall k', ord w1 o k' = A k') -> g w1 k = Some (F k).
+
+Lemma at_loop_spec : forall cnt i w,
+  G t w -> dim (getv w t) = n -> 0 <= i -> i + Z.of_nat cnt = n -> (forall k, ord w o k = A k) ->
+  exists w', at_loop g cnt i w t = (w', true) /\ G t w' /\ length (vecs w') = length (vecs w) /\
+    (forall u, dim (getv w' u) = dim (getv w u)) /\
+    (forall k, i <= k < n -> peek (hp w') (getv w' t) k = F k) /\
+    (forall k, k < i -> peek (hp w') (getv w' t) k = peek (hp w) (getv w t) k) /\
+    (forall u k, u <> t -> peek (hp w') (getv w' u) k = peek (hp w) (getv w u) k).
+Proof.
+  induction cnt as [|c IH]; intros i w HG Hn Hi Hc HA.
+  - exists w. simpl. split; [auto|]. split; [auto|]. split; [auto|]. split; [auto|].
+    split; [intros k Hk; lia|]. auto.
+  - cbn [at_loop].
+    destruct (at_step w i HG) as (h' & v' & l & E & G1 & L1 & V1 & Len1 & D1 & P1); [lia|].
+    rewrite E. set (w1 := seth (setv w t v') h') in *.
+    assert (HA1 : forall k, ord w1 o k = A k).
+    { apply (ord_frame w w1); auto; intros u k _; apply P1. }
+    rewrite (Hg w1 i HA1).
+    destruct (wr_spec t w1 i (Some l) (F i) G1) as (w2 & E2 & G2 & L2 & D2 & P2 & F1 & F2).
+    { rewrite D1. lia. }
+    { intros l0 X. inversion X. subst l0. rewrite V1. auto. }
+    unfold wr in E2. inversion E2. clear E2. change (hp w1) with h' in H0. rewrite H0.
+    destruct (IH (i + 1) w2) as (w' & E3 & G3 & L3 & D3 & R3 & S3 & F3); auto.
+    + rewrite D2, D1. auto.
+    + lia.
+    + lia.
+    + apply (ord_frame w1 w2); auto; intros u k N; apply F2; auto.
+    + exists w'. split; [auto|]. split; [auto|].
+      split; [rewrite L3, L2; unfold w1; simpl; apply upd_length|].
+      split; [intro u; rewrite D3, D2, D1; auto|]. split; [|split].
+      * intros k Hk. destruct (Z.eq_dec k i) as [->|N]; [|apply R3; lia].
+        rewrite S3 by lia. auto.
+      * intros k Hk. rewrite S3 by lia. rewrite (proj1 (F1 k ltac:(lia))). apply P1.
+      * intros u k N. rewrite F3 by auto. rewrite (proj1 (F2 u k N)). apply P1.
+Qed.
+End IndexLoops.
+
+(* VaddS / VsubS and friends: r[i] := F(a[i]) for every i *)
+Theorem vopS_correct t (g : world -> Z -> option Z) (F : Z -> Z) w o :
+  G t w -> operand_ok3 w t o ->
+  (forall w1 k, (forall k', ord w1 o k' = ord w o k') -> g w1 k = Some (F (ord w o k))) ->
+  exists w', vopS g w t o = (w', true) /\ G t w' /\ length (vecs w') = length (vecs w) /\
+    sabs w' t = map F (oabs w o) /\
+    (forall u, u <> t -> sabs w' u = sabs w u) /\
+    (forall u, dim (getv w' u) = dim (getv w u)).
+Proof.
+  intros HG H2 Hg. unfold vopS. rewrite (operand_dim w t o H2), Z.eqb_refl. cbn [negb].
+  set (n := dim (getv w t)).
+  assert (Hn0 : 0 <= n) by (destruct HG as (GI & _); destruct (GI t) as (_ & _ & _ & _ & X); auto).
+  destruct (at_loop_spec t n o (ord w o)) with (g := g) (F := fun k => F (ord w o k)) (cnt := Z.to_nat n) (i := 0) (w := w)
+    as (w' & E & G' & L & D & R & S & F'); auto.
+  - destruct o as [u|d]; simpl in *; tauto.
+  - lia.
+  - lia.
+  - exists w'. split; [auto|]. split; [auto|]. split; [auto|]. split; [|split; [|auto]].
+    + rewrite (sabs_peek w' t n) by (rewrite D; auto).
+      rewrite (oabs_ord w o n) by (apply operand_dim; auto). rewrite map_map.
+      apply map_ext_in. intros i Hi. apply zseq_In in Hi. apply R. lia.
+    + intros u N. rewrite (sabs_peek w' u _ (D u)), (sabs_peek w u _ eq_refl).
+      apply map_ext. intro i. apply F'. auto.
+Qed.
+
+(* ---- VdivV on a sparse receiver (index loop with the zero-dividend shortcut) ------- *)
+Section DivV.
+Variable t : nat.
+Variable n : Z.
+Variable y : ty.
+Variables o2 o3 : operand.
+Variables A B : Z -> Z.
+Hypothesis Ho2 : match o2 with OS u => u <> t | OD _ => True end.
+Hypothesis Ho3 : match o3 with OS u => u <> t | OD _ => True end.
+Hypothesis HB : forall k, 0 <= k < n -> B k <> 0.
+
+Lemma divv_loop_spec : forall cnt i w,
+  G t w -> dim (getv w t) = n -> 0 <= i -> i + Z.of_nat cnt = n ->
+  (forall k, ord w o2 k = A k) -> (forall k, ord w o3 k = B k) ->
+  exists w', divv_loop y cnt i w t o2 o3 = (w', true) /\ G t w' /\ length (vecs w') = length (vecs w) /\
+    (forall u, dim (getv w' u) = dim (getv w u)) /\
+    (forall k, i <= k < n -> peek (hp w') (getv w' t) k = Z.quot (A k) (B k)) /\
+    (forall k, k < i -> peek (hp w') (getv w' t) k = peek (hp w) (getv w t) k) /\
+    (forall u k, u <> t -> peek (hp w') (getv w' u) k = peek (hp w) (getv w u) k).
+Proof.
+  induction cnt as [|c IH]; intros i w HG Hn Hi Hc HA HBo.
+  - exists w. simpl. split; [auto|]. split; [auto|]. split; [auto|]. split; [auto|].
+    split; [intros k Hk; lia|]. auto.
+  - cbn [divv_loop]. rewrite HA, HBo.
+    assert (Bi : B i <> 0) by (apply HB; lia).
+    assert (EB : (B i =? 0) = false) by (apply Z.eqb_neq; auto).
+    rewrite EB, orb_false_r.
+    (* the three branches all leave r[i] = A i / B i; the first two write through AT *)
+    assert (Step : forall x, x = Z.quot (A i) (B i) ->
+              forall w2, wr w t i None x = Some w2 ->
+              exists w', divv_loop y c (i + 1) w2 t o2 o3 = (w', true) /\ G t w' /\
+                length (vecs w') = length (vecs w) /\
+                (forall u, dim (getv w' u) = dim (getv w u)) /\
+                (forall k, i <= k < n -> peek (hp w') (getv w' t) k = Z.quot (A k) (B k)) /\
+                (forall k, k < i -> peek (hp w') (getv w' t) k = peek (hp w) (getv w t) k) /\
+                (forall u k, u <> t -> peek (hp w') (getv w' u) k = peek (hp w) (getv w u) k)).
+    { intros x Hx w2 E2.
+      destruct (wr_spec t w i None x HG) as (w2' & E2' & G2 & L2 & D2 & P2 & F1 & F2);
+        [lia|intros l X; discriminate|].
+      rewrite E2 in E2'. inversion E2'. subst w2'. clear E2'.
+      destruct (IH (i + 1) w2) as (w' & E3 & G3 & L3 & D3 & R3 & S3 & F3); auto.
+      - rewrite D2. auto.
+      - lia.
+      - lia.
+      - apply (ord_frame t o2 A Ho2 w w2); auto; intros u k N; apply F2; auto.
+      - apply (ord_frame t o3 B Ho3 w w2); auto; intros u k N; apply F2; auto.
+      - exists w'. split; [auto|]. split; [auto|]. split; [lia|].
+        split; [intro u; rewrite D3, D2; auto|]. split; [|split].
+        + intros k Hk. destruct (Z.eq_dec k i) as [->|N]; [|apply R3; lia].
+          rewrite S3 by lia. rewrite P2. auto.
+        + intros k Hk. rewrite S3 by lia. apply (proj1 (F1 k ltac:(lia))).
+        + intros u k N. rewrite F3 by auto. apply (proj1 (F2 u k N)). }
+    destruct (A i =? 0) eqn:EA; cbn [negb].
+    + apply Z.eqb_eq in EA.
+      destruct (peek (hp w) (getv w t) i =? 0) eqn:ER; cbn [negb].
+      * (* nothing to do: r[i] is already 0 *)
+        apply Z.eqb_eq in ER.
+        destruct (IH (i + 1) w) as (w' & E3 & G3 & L3 & D3 & R3 & S3 & F3); auto; try lia.
+        exists w'. split; [auto|]. split; [auto|]. split; [auto|]. split; [auto|]. split; [|split; auto].
+        { intros k Hk. destruct (Z.eq_dec k i) as [->|N]; [|apply R3; lia].
+          rewrite S3 by lia. rewrite ER, EA. symmetry. apply Z.quot_0_l. auto. }
+        { intros k Hk. apply S3. lia. }
+      * (* r.At(i).Reset() *)
+        destruct (wr_spec t w i None 0 HG) as (w2 & E2 & _); [lia|intros l X; discriminate|].
+        pose proof E2 as E2'. unfold wr in E2'.
+        destruct (at_ (hp w) (getv w t) i) as [[[h' v'] l]|]; [|discriminate].
+        inversion E2'. apply (Step 0); [rewrite EA; symmetry; apply Z.quot_0_l; auto|rewrite E2; f_equal; rewrite <- H0; reflexivity].
+    + destruct (wr_spec t w i None (Z.quot (A i) (B i)) HG) as (w2 & E2 & _); [lia|intros l X; discriminate|].
+      pose proof E2 as E2'. unfold wr in E2'.
+      destruct (at_ (hp w) (getv w t) i) as [[[h' v'] l]|]; [|discriminate].
+      rewrite sdiv_nonzero by auto.
+      inversion E2'. apply (Step (Z.quot (A i) (B i))); [reflexivity|rewrite E2; f_equal; rewrite <- H0; reflexivity].
+Qed.
+End DivV.
+
+Theorem vdivv_correct t y w o2 o3 :
+  G t w -> operand_ok3 w t o2 -> operand_ok3 w t o3 -> nonzero_all (oabs w o3) ->
+  exists w', vdivv y w t o2 o3 = (w', true) /\ G t w' /\ length (vecs w') = length (vecs w) /\
+    sabs w' t = map2 Z.quot (oabs w o2) (oabs w o3) /\
+    (forall u, u <> t -> sabs w' u = sabs w u) /\
+    (forall u, dim (getv w' u) = dim (getv w u)).
+Proof.
+  intros HG H2 H3 Hnz. unfold vdivv.
+  rewrite (operand_dim w t o2 H2), (operand_dim w t o3 H3), Z.eqb_refl. cbn [negb orb].
+  set (n := dim (getv w t)).
+  assert (Hn0 : 0 <= n) by (destruct HG as (GI & _); destruct (GI t) as (_ & _ & _ & _ & X); auto).
+  destruct (divv_loop_spec t n y o2 o3 (ord w o2) (ord w o3)) with (cnt := Z.to_nat n) (i := 0) (w := w)
+    as (w' & E & G' & L & D & R & S & F'); auto.
+  - destruct o2 as [u|d]; simpl in *; tauto.
+  - destruct o3 as [u|d]; simpl in *; tauto.
+  - intros k Hk. unfold nonzero_all in Hnz. rewrite (oabs_ord w o3 n) in Hnz by (apply operand_dim; auto).
+    rewrite Forall_forall in Hnz. apply Hnz. apply in_map. apply zseq_In. lia.
+  - lia.
+  - lia.
+  - exists w'. split; [auto|]. split; [auto|]. split; [auto|]. split; [|split; [|auto]].
+    + rewrite (sabs_peek w' t n) by (rewrite D; auto).
+      rewrite (oabs_ord w o2 n), (oabs_ord w o3 n) by (apply operand_dim; auto). rewrite map2_map.
+      apply map_ext_in. intros i Hi. apply zseq_In in Hi. apply R. lia.
+    + intros u N. rewrite (sabs_peek w' u _ (D u)), (sabs_peek w u _ eq_refl).
+      apply map_ext. intro i. apply F'. auto.
+Qed.
